@@ -23,7 +23,7 @@ MARK = "(* ==== INSTANCE ===="
 KINDS = ["iaf_cells", "pulse_generators", "exp_one_synapses", "izhikevich_cells"]
 INSTANCE_THEOREMS = ["C07_state_ok", "C07_loads_history_independent", "C07_builders_do_not_interfere",
                      "C07_no_default_is_mutated", "C07_every_field_is_per_instance", "C07_no_written_global_is_read",
-                     "C07_class_metadata_is_constant", "C07_process_state_is_restored"]
+                     "C07_class_metadata_is_constant", "C07_process_state_is_restored", "C07_handlers_do_not_write_argument_objects"]
 
 
 # --------------------------------------------------------------------------------------- translator
@@ -65,6 +65,9 @@ def gen_table(d):
     ps = ["{| ps_module := %s; ps_func := %s; ps_kind := %s; ps_import_time := %s; ps_restored := %s |}"
           % (coq_str(x["module"]), coq_str(x["func"]), psk[x["kind"]], b(x["scope"] != "function"), b(x["restored"]))
           for x in d.get("process_state", [])]
+    aw = ["{| aw_module := %s; aw_class := %s; aw_func := %s; aw_param := %s; aw_attr := %s; aw_handler := %s |}"
+          % (coq_str(x["module"]), coq_str(x["cls"]), coq_str(x["func"]), coq_str(x["param"]), coq_str(x["attr"]), b(x["handler"]))
+          for x in d.get("argument_writes", [])]
     mode = {"none": "DNone", "shared": "DSharedList"}
     ms = d["entry_defaults"].get("modes", {})
     lines = ["From Coq Require Import String List Bool ZArith.", "From LNML Require Import Model.State.",
@@ -74,7 +77,8 @@ def gen_table(d):
              "  st_fields := %s;" % coq_list(fs).replace("; {|", ";\n    {|"),
              "  st_globals := %s;" % coq_list(gs).replace("; {|", ";\n    {|"),
              "  st_classmeta := %s;" % coq_list(cm).replace("; {|", ";\n    {|"),
-             "  st_process := %s |}." % coq_list(ps).replace("; {|", ";\n    {|")]
+             "  st_process := %s;" % coq_list(ps).replace("; {|", ";\n    {|"),
+             "  st_argwrites := %s |}." % coq_list(aw).replace("; {|", ";\n    {|")]
     shp = d["entry_defaults"].get("shape", {})
     lines += ["(* the version-dependent places of loaders.py / NetworkBuilder.py, read off the source *)",
               "Definition shape : lshape := {| sh_mark_entry := %s; sh_append_first := %s; sh_h5_threads := %s |}."
@@ -96,6 +100,7 @@ INST = {
     "defaults": "Lemma defaults_ok : mutated_defaults Gen_C07.table = [].\nProof. vm_compute. reflexivity. Qed.\n",
     "fields": "Lemma fields_ok : all_own Gen_C07.table = true.\nProof. vm_compute. reflexivity. Qed.\n",
     "globals": "Lemma globals_ok : globals_read Gen_C07.table = [].\nProof. vm_compute. reflexivity. Qed.\n",
+    "argwrites": "Lemma argument_writes_ok : argument_writes Gen_C07.table = [].\nProof. vm_compute. reflexivity. Qed.\n",
     "process": "Lemma process_state_ok : process_leaks Gen_C07.table = [].\nProof. vm_compute. reflexivity. Qed.\n",
     "classmeta": "Lemma classmeta_ok : mutated_class_attrs Gen_C07.table = [].\nProof. vm_compute. reflexivity. Qed.\n",
 }
@@ -138,6 +143,8 @@ def table_and_props(ck, d):
                 ref.append("Lemma interleave_refuted_for_this_table :\n"
                            "  bdump (placement_of Gen_C07.table) WA (brun Gen_C07.elec_guard (placement_of Gen_C07.table) wit_sched bsys0)\n"
                            "  <> solo_dump Gen_C07.elec_guard (ops_of WA wit_sched).\nProof. vm_compute. discriminate. Qed.\n")
+        if not inst_ok["argwrites"]:
+            ref.append("Lemma argument_writes_refuted : argument_writes Gen_C07.table <> [].\nProof. vm_compute. discriminate. Qed.\n")
         if not inst_ok["process"]:
             ref.append("Lemma process_state_refuted : process_leaks Gen_C07.table <> [].\nProof. vm_compute. discriminate. Qed.\n")
         if not inst_ok["classmeta"]:
@@ -198,7 +205,26 @@ W_POOL += [
     {"name": "w_swc.swc", "kind": "xml", "raw": "1 1 0 0 0 1 -1\n2 3 1 0 0 1 1\n3 3 2 0 0 1 2\n", "items": [], "includes": [],
      "model_kind": "FH5"},
 ]
+def _xdoc(tag, thresh):
+    return ('<neuroml xmlns="http://www.neuroml.org/schema/neuroml2" id="doc_w_x%s">\n'
+            '    <iafCell id="cell0" leakReversal="-65mV" thresh="%s" reset="-65mV" C="1.0 nF" leakConductance="10 nS"/>\n'
+            '    <network id="netx%s">\n        <population id="p0" component="cell0" size="2"/>\n    </network>\n</neuroml>\n'
+            % (tag, thresh, tag))
+
+
+# two files that call their cell `cell0` but define it differently (parser-driven builds must not confuse them)
+W_POOL += [
+    {"name": "w_xa.nml", "kind": "xml", "raw": _xdoc("a", "-50mV"), "items": [["iaf_cells", "cell0"]], "includes": [],
+     "net": {"id": "netxa", "pops": [{"id": "p0", "comp": "cell0", "size": 2}], "projs": [], "ilists": []}},
+    {"name": "w_xb.nml", "kind": "xml", "raw": _xdoc("b", "-40mV"), "items": [["iaf_cells", "cell0"]], "includes": [],
+     "net": {"id": "netxb", "pops": [{"id": "p0", "comp": "cell0", "size": 2}], "projs": [], "ilists": []}},
+]
 W_HIST = [
+    ("XML-parser builds of two files that use the same component id with different definitions",
+     [{"ep": "xmlparser", "name": "w_xa.nml"}, {"ep": "xmlparser", "name": "w_xb.nml"}, {"ep": "xmlparser", "name": "w_xa.nml"}]),
+    ("optimized HDF5 load of a population with properties, twice, then another optimized load",
+     [{"ep": "h5", "name": "w_props.nml.h5", "opt": True}, {"ep": "h5", "name": "w_props.nml.h5", "opt": True},
+      {"ep": "h5", "name": "w_net.nml.h5", "opt": True}, {"ep": "file", "name": "w_props.nml.h5", "incl": True, "opt": True}]),
     ("a load that fails in a sub-folder, then the same relative-path load / string load with a relative include as before",
      [{"ep": "file", "name": "w_rnet.nml", "incl": True, "rel": True},
       {"ep": "string", "name": "w_rnet.nml", "incl": True, "base": "none"},
@@ -430,6 +456,8 @@ def classify_hist_diff(fresh, got):
         return "includes-differ"
     if fresh.get("types") != got.get("types"):
         return "component-types-differ"
+    if fresh.get("defs") != got.get("defs"):
+        return "component-definitions-differ"
     if fresh.get("handler_calls") != got.get("handler_calls"):
         return "handler-calls-differ"
     if fresh.get("meta") != got.get("meta"):
@@ -773,6 +801,115 @@ def directed_schedules():
     return out
 
 
+# ---- objects handed to the handlers as arguments: component_obj, synapse_obj, pre_synapse_obj, input_comp_obj
+def op_refs(o):
+    return o[-1] if isinstance(o[-1], dict) else {}
+
+
+def gen_obj_stream(rng, tag):
+    """a well-formed handler stream whose object-valued arguments are drawn from a small set of named objects; the names that do
+    not carry the tag are common to both streams, so the two builders of a schedule receive the identical Python object"""
+    cells = ["iaf_cells:cellS0", "izhikevich_cells:cellS1", "iaf_cells:cell" + tag]
+    ops = [["doc", "doc" + tag], ["net", "net" + tag]]
+    pops = rng.sample(["p0", "p1", "p2"], rng.choice([1, 2, 2, 3]))
+    for p in pops:
+        ref = rng.choice(cells)
+        size = rng.randint(1, 2)
+        ops.append(["pop", p, ref.split(":")[1], size] + ([{"component_obj": ref}] if rng.random() < 0.85 else []))
+        if rng.random() < 0.4:
+            ops += [["loc", i, p, rng.randint(0, 9), rng.randint(0, 9), 0] for i in range(size)]
+    for k in range(rng.choice([0, 1, 1, 2])):
+        pid = "pr%d" % k
+        pre, post = rng.choice(pops), rng.choice(pops)
+        kind = rng.choice(["projection", "electricalProjection", "continuousProjection", "continuousProjection"])
+        syn = rng.choice(["exp_one_synapses:synS", "exp_one_synapses:syn" + tag])
+        refs = {}
+        if rng.random() < 0.8:
+            refs["synapse_obj"] = syn
+        if kind == "continuousProjection" and rng.random() < 0.7:
+            refs["pre_synapse_obj"] = rng.choice(["silent:preS", "silent:pre" + tag])
+        ops.append(["proj", pid, pre, post, syn.split(":")[1], kind, False, False, None] + ([refs] if refs else []))
+        for cid in range(rng.randint(0, 2)):
+            ops.append(["conn", pid, cid, pre, post, 0, 0, 0, 1])
+        if rng.random() < 0.7:
+            ops.append(["fin", pid, pre, post, syn.split(":")[1], kind])
+    for k in range(rng.choice([0, 1, 1])):
+        ref = rng.choice(["pulse_generators:pgS", "pulse_generators:pg" + tag])
+        ops.append(["il", "il%d" % k, rng.choice(pops), ref.split(":")[1]] + ([{"input_comp_obj": ref}] if rng.random() < 0.85 else []))
+        ops += [["inp", "il%d" % k, i, 0, 1] for i in range(rng.randint(0, 2))]
+    return ops
+
+
+def directed_object_schedules():
+    """stored schedules (run first, every run): the SAME object as component_obj / synapse_obj / pre_synapse_obj / input_comp_obj of
+    two builders - one after the other, and B's calls inside A's - and as the component of two populations of one builder"""
+    head = lambda t: [["doc", "doc" + t], ["net", "net" + t]]
+    pop = lambda pid: ["pop", pid, "cellS", 2, {"component_obj": "iaf_cells:cellS"}]
+    plain = ["pop", "p", "cellX", 1]
+    proj = lambda kind, refs: ["proj", "pr", "p", "p", "synS", kind, False, False, None, refs]
+    il = ["il", "il0", "p", "pgS", {"input_comp_obj": "pulse_generators:pgS"}]
+    bodies = [
+        ("component_obj", [pop("p")], [pop("p")]),
+        ("component_obj-two-populations", [pop("p0"), pop("p1")], [pop("q0"), pop("q1")]),
+        ("synapse_obj", [plain, proj("projection", {"synapse_obj": "exp_one_synapses:synS"})],
+         [plain, proj("electricalProjection", {"synapse_obj": "exp_one_synapses:synS"})]),
+        ("pre_synapse_obj", [plain, proj("continuousProjection", {"synapse_obj": "exp_one_synapses:synS", "pre_synapse_obj": "silent:preS"})],
+         [plain, proj("continuousProjection", {"pre_synapse_obj": "silent:preS"})]),
+        ("input_comp_obj", [plain, il], [plain, il]),
+    ]
+    out = []
+    for name, ba, bb in bodies:
+        sa, sb = head("A") + ba, head("B") + bb
+        out.append((name + ":sequential", sa, sb, [["A", o] for o in sa] + [["B", o] for o in sb]))
+        out.append((name + ":interleaved", sa, sb, [["A", o] for o in sa[:2]] + [["B", o] for o in sb] + [["A", o] for o in sa[2:]]))
+    return out
+
+
+def check_object_schedules(ck, streams, scheds, solo, sres):
+    nbad = 0
+    seen_w = set()
+
+    def writes(rs, sched, who):
+        for wr in rs.get("argument_writes", []):
+            key = "C07:interleave:handler-writes-argument-object:%s.%s.%s" % (wr["handler"], wr["param"], wr["attr"])
+            if key in seen_w:
+                continue
+            seen_w.add(key)
+            ck.witness(key, "NetworkBuilder.%s changed the object it received as `%s`: attribute `%s` %s (%s -> %s); the object "
+                       "belongs to the caller and is seen by every other handler it is passed to"
+                       % (wr["handler"], wr["param"], wr["attr"], wr["change"], wr["before"], wr["after"]),
+                       input={"kind": "schedule", "sched": sched, "builder": who, "invariant": "argument-objects"},
+                       expected={"argument_writes": []}, observed={"argument_writes": [wr]},
+                       broken="Inst_C07_argwrites.v:argument_writes_ok")
+
+    for si, (ops, r) in enumerate(zip(streams, solo)):
+        writes(r, [["A", o] for o in ops], "A")
+    for (ia, ib, order, sched), r in zip(scheds, sres):
+        ra = {v for o in streams[ia] for v in op_refs(o).values()}
+        rb = {v for o in streams[ib] for v in op_refs(o).values()}
+        ck.count(1, nontrivial_key=("osched", sched) if ra & rb else None,
+                 sample={"schedule_with_shared_argument_objects": sched} if order == "alt" and ia == scheds[-1][0] else None)
+        ck.tally("object-schedule-order:" + (order if not order.startswith("stored:") else "stored"))
+        ck.tally("object-schedule:shared-objects:%d" % len(ra & rb))
+        writes(r, sched, "A")
+        for w, si in (("A", ia), ("B", ib)):
+            if r[w] != solo[si]:
+                nbad += 1
+                sdiff = first_diff(solo[si]["dump"], r[w]["dump"])
+                ck.witness("C07:interleave:shared-argument-object" + (":" + order.split(":", 1)[1] if order.startswith("stored:") else ""),
+                           "two builders were handed the SAME Python object(s) as object-valued handler argument(s) %s: builder %s "
+                           "ends with a different document than when its handler calls run alone (fresh process, freshly built, "
+                           "equal objects)" % (sorted(ra & rb), w),
+                           input={"kind": "schedule", "sched": sched, "builder": w},
+                           expected={"solo": solo[si]},
+                           observed={"with_shared_objects": r[w], "components_missing": sorted(set(solo[si]["components"]) - set(r[w]["components"])),
+                                     "components_extra": sorted(set(r[w]["components"]) - set(solo[si]["components"])),
+                                     "first_difference": sdiff},
+                           broken="Inst_C07_argwrites.v:argument_writes_ok")
+    ck.extra["object_schedules"] = len(scheds)
+    ck.extra["object_schedule_views_differing_from_solo"] = nbad
+
+
 def run_schedules(ck, tmp, pool, placement_known):
     rng = ck.rng
     npairs = ck.n(14, 320)
@@ -799,14 +936,32 @@ def run_schedules(ck, tmp, pool, placement_known):
         fa, fb = rng.sample(netfiles, 2) if rng.random() < 0.8 else [rng.choice(netfiles)] * 2
         order = rng.choice(["alt", "ab", "binside", [rng.randrange(2) for _ in range(60)]])
         ppairs.append((fa, fb, order))
+    # schedules in which both builders receive the same objects as component_obj / synapse_obj / pre_synapse_obj / input_comp_obj
+    ostreams, oscheds = [], []
+    for name, sa, sb, sched in directed_object_schedules():
+        ia = len(ostreams)
+        ostreams += [sa, sb]
+        oscheds.append((ia, ia + 1, "stored:" + name, sched))
+    for _ in range(ck.n(10, 220)):
+        sa, sb = gen_obj_stream(rng, "A"), gen_obj_stream(rng, "B")
+        ia = len(ostreams)
+        ostreams += [sa, sb]
+        for order in ["ab", "alt", "binside", "rand"] + (["ba", "rand"] if ck.tier == "thorough" else []):
+            oscheds.append((ia, ia + 1, order, merge(rng, sa, sb, order)))
     jobs = [{"kind": "solo", "ops": s} for s in streams] + [{"kind": "schedule", "sched": s[3]} for s in scheds] + \
            [{"kind": "parser_solo", "file": f} for f in netfiles] + \
            [{"kind": "parser_sched", "fileA": fa, "fileB": fb, "order": o} for fa, fb, o in ppairs] + [{"kind": "optlist"}]
+    njobs = len(jobs)
+    jobs += [{"kind": "solo", "ops": s} for s in ostreams] + [{"kind": "schedule", "sched": s[3]} for s in oscheds]
     out = ck.impl("c07_impl.py", {"dir": tmp, "jobs": jobs}, timeout=ck.n(300, 1500))
     res = out["jobs"]
     for j in res:
         if not j.get("ok"):
             raise RuntimeError("schedule job failed: %s" % json.dumps(j)[:1500])
+    ores = res[njobs:]
+    res = res[:njobs]
+    check_object_schedules(ck, ostreams, oscheds, [j["value"] for j in ores[:len(ostreams)]],
+                           [j["value"] for j in ores[len(ostreams):]])
     solo = [j["value"] for j in res[:len(streams)]]
     sres = [j["value"] for j in res[len(streams):len(streams) + len(scheds)]]
     o = len(streams) + len(scheds)
@@ -925,6 +1080,8 @@ def run(ck):
                                               if x["mutated"] or x["escapes"]],
                          "shared_fields": ["%s.%s" % (x["cls"], x["attr"]) for x in d["fields"] if x["placement"] == "Shared"],
                          "globals_read": ["%s.%s" % (x["module"], x["name"]) for x in d["globals"] if x["readers"]],
+                         "argument_writes": [{k: x[k] for k in ("module", "func", "param", "via", "attr", "line", "how", "handler")}
+                                             for x in d.get("argument_writes", [])],
                          "process_state": [{k: x[k] for k in ("module", "func", "line", "kind", "call", "scope", "restored", "how")}
                                            for x in d.get("process_state", [])],
                          "class_metadata": [{"attr": x["attr"], "kind": x["kind"], "classes": x["classes"], "mutated": x["mutated"],
@@ -941,6 +1098,9 @@ def run(ck):
     for x in d.get("process_state", []):
         ck.count(1, nontrivial_key=("process", x["module"], x["func"], x["line"]))
         ck.tally("table:process-state:" + x["kind"] + ":" + x["scope"])
+    for x in d.get("argument_writes", []):
+        ck.count(1, nontrivial_key=("argwrite", x["module"], x["func"], x["line"]))
+        ck.tally("table:argument-write:" + ("handler" if x["handler"] else "other"))
     for x in d.get("classmeta", []):
         ck.count(1, nontrivial_key=("classmeta", x["attr"]))
         ck.tally("table:class-" + x["kind"])
@@ -993,9 +1153,10 @@ def replay(ck, data):
             ops = [o for ww, o in sched if ww == w]
             out = ck.impl("c07_impl.py", {"dir": tmp, "jobs": [{"kind": "solo", "ops": ops}, {"kind": "schedule", "sched": sched}]})
             solo, r = out["jobs"][0]["value"], out["jobs"][1]["value"][w]
+            argw = out["jobs"][1]["value"].get("argument_writes", []) + solo.pop("argument_writes", [])
             model = None
             d = translate(ck)
-            if d is not None and ck.coqc(ck.gen_v("Gen_C07.v", gen_table(d)))[0]:
+            if d is not None and not any(op_refs(o) for _, o in sched) and ck.coqc(ck.gen_v("Gen_C07.v", gen_table(d)))[0]:
                 st = coq_list(["(%s, %s)" % ("WA" if ww == "A" else "WB", op_term(o)) for ww, o in sched])
                 text = "\n".join([HEAD, "Definition pl := placement_of Gen_C07.table.",
                                   "Eval vm_compute in (bdump pl %s (brun Gen_C07.elec_guard pl %s bsys0))." % ("WA" if w == "A" else "WB", st),
@@ -1003,9 +1164,10 @@ def replay(ck, data):
                 ok, res, _ = ck.coq_eval("Replay_C07.v", text + "\n")
                 model = {"interleaved": res[0] if ok and res else None, "solo": res[1] if ok and len(res) > 1 else None}
             print(json.dumps({"schedule": sched, "builder": w, "implementation": {"solo_fresh_process": solo, "interleaved": r,
-                                                                                 "first_difference": first_diff(solo["dump"], r["dump"])},
+                                                                                 "first_difference": first_diff(solo["dump"], r["dump"]),
+                                                                                 "handler_writes_on_argument_objects": argw},
                               "model": model}, indent=1)[:8000])
-            rc = 1 if solo != r else 0
+            rc = 1 if (solo != r or argw) else 0
         elif kind == "parser_sched":
             w = inp.get("builder", "A")
             f = inp["fileA"] if w == "A" else inp["fileB"]
